@@ -315,7 +315,21 @@ func (p *Program) Func(pkg, recv, name string) *ssa.Function {
 		return nil
 	}
 	if recv == "" {
-		return sp.Func(name)
+		if f := sp.Func(name); f != nil {
+			return f
+		}
+		// a function of another shape that took over the job of the pinned one (roles)
+		roleMu.Lock()
+		cur := roleAlias[pkg+"."+name]
+		roleMu.Unlock()
+		if cur != "" {
+			for _, f := range p.Funcs {
+				if f.String() == cur && f.Blocks != nil {
+					return f
+				}
+			}
+		}
+		return nil
 	}
 	tn, ok := sp.Pkg.Scope().Lookup(recv).(*types.TypeName)
 	if !ok {
